@@ -548,7 +548,11 @@ class Stage:
             # and so do the guesses of the localized time grid when the horizon is this parameter.
             # The parameter may be used by any stage of the problem (e.g. a parent's parameter in a guess of a sub-stage)
             for s in self.master.iter_stages(include_self=True):
-                if not hasattr(s._method, 'set_initial_all'): continue
+                if not hasattr(s._method, 'set_initial_all'):
+                    # No time grid (an Ocp without states, the parent of a multi-stage Ocp): its guesses may still be written in parameters
+                    if hasattr(s._method, 'set_initial') and any(isinstance(v, MX) and not v.is_constant() for v in s._initial.values()):
+                        s._method.set_initial(s._augmented, self.master._method, s._initial)
+                    continue
                 time_grid = getattr(s._method, 'time_grid', None)
                 localized = time_grid is not None and (time_grid.localize_t0 or time_grid.localize_T)
                 horizon = [h for h in (s._t0, s._T) if isinstance(h, MX)]
